@@ -576,3 +576,73 @@ func TestProp_C14_Unbound(t *testing.T) {
 	}
 	sim.MarkCompleted("C14unbound", true)
 }
+
+// ---- C14: the key exchange itself in pieces ----
+
+// FragAKECase: both conversations have a fragment size set before anything is said; the exchange is started by either
+// side's query and every message of it travels in as many pieces as that takes.
+type FragAKECase struct {
+	V       int `json:"v"`
+	FA      int `json:"fa"`
+	FB      int `json:"fb"`
+	Starter int `json:"starter"`
+}
+
+func runFragAKE(c *FragAKECase) *sim.Outcome {
+	o := &sim.Outcome{}
+	cfg := SessCfg{V: c.V, SeedA: 1480, SeedB: 1581, KeyA: 0, KeyB: 3, FragA: c.FA, FragB: c.FB, Starter: c.Starter}
+	w := cfg.world()
+	pieces := 0
+	w.OnCall = func(cc *sim.Call) {
+		if len(cc.Out) > 1 {
+			pieces += len(cc.Out)
+		}
+		for _, m := range cc.Out {
+			if f := cfg.fragOf(cc.Who); f > 0 && len(m) > f && len(cc.Out) > 1 {
+				o.Fail("C14/piece-too-long", "a piece of %d bytes although the fragment size is %d", len(m), f)
+			}
+		}
+	}
+	if !w.Handshake(c.Starter) {
+		return o.Fail("C14/not-delivered", "with fragment sizes %d/%d the key exchange (started by %d, version %d) did not complete: its messages, cut into pieces, were not reassembled and processed (A encrypted=%v, B encrypted=%v)", c.FA, c.FB, c.Starter, c.V, w.P[0].C.IsEncrypted(), w.P[1].C.IsEncrypted())
+	}
+	for d := 0; d < 2 && o.Violation == ""; d++ {
+		t := []byte(token(d, 1) + " after a key exchange in pieces")
+		w.Send(d, t)
+		got := 0
+		for _, cc := range w.Flush(5000) {
+			if cc.Who == 1-d && cc.HasPl && bytes.Equal(cc.Plain, t) {
+				got++
+			}
+		}
+		if got != 1 {
+			return o.Fail("C14/not-delivered", "after a fragmented key exchange a text from %s was delivered %d times", w.P[d].Name, got)
+		}
+	}
+	if pieces > 0 {
+		o.Class("handshake-in-pieces")
+	}
+	o.NonTrivial = pieces > 0
+	return o
+}
+
+func init() { reg("C14fragake", runFragAKE) }
+
+func TestProp_C14_FragAKE(t *testing.T) {
+	si, sn := sim.Shard()
+	idx := 0
+	for _, v := range []int{3, 2} {
+		lo := minFrag(v)
+		for _, fa := range []int{0, lo, lo + 1, lo + 7, 64, 100, 200, 339, 340, 341, 500} {
+			for _, fb := range []int{0, lo, lo + 3, 80, 250, 700} {
+				for starter := 0; starter < 2; starter++ {
+					idx++
+					if idx%sn == si {
+						sim.Judge(t, "C14fragake", &FragAKECase{V: v, FA: fa, FB: fb, Starter: starter})
+					}
+				}
+			}
+		}
+	}
+	sim.MarkCompleted("C14fragake", true)
+}
